@@ -113,8 +113,8 @@ theorem entry_visible {s : Sys} {r : Emit} (h : r ∈ requests s) (he : r.row.is
   case sidebarInherited => exact ho.2.2
   case modIndexRoot => exact ho.2.2.2
   case modIndex => exact ho.2.2.1
-  case classIndex => exact ho.2
-  case nameIndex => exact ho.2
+  case classIndex => exact ho.2.1
+  case nameIndex => exact ho.2.1
   case undoc => exact ho.2
   case indexRoots => exact ho.2.2
   case allDocs => exact ho.2.2
@@ -199,6 +199,210 @@ theorem public_unmarked {s : Sys} {e : Emit} (h : e ∈ emits s) (hl : e.row.lis
     (hp : (s.ob e.target).privacy = .pub) : e.marked = some false := by
   rw [marker_of h hl]
   split <;> simp [isPrivate, cssPrivate, hp]
+
+/-! ### per producer: what each function of the page writers and summary pages lets through
+
+One statement per producer of pages, anchors, rows and index entries (`no_trace_<producer>`), about the
+producer's own model function, and one per listing row about its marker (`private_marked_<producer>`). -/
+
+/-- `TemplateWriter._writeDocsFor`: the recursion visits visible objects only -/
+theorem no_trace_writeDocsFor (s : Sys) {f r i : Nat} (h : i ∈ docsFor s f r) : visible s i = true :=
+  (docsFor_sound s f r i h).2
+
+/-- the pages that are written -/
+theorem no_trace_pages {s : Sys} {p : Nat} (h : p ∈ pages s) : visible s p = true := visible_of_mem_pages h
+
+/-- `linker.taglink`: a hyperlink is built for a visible target only -/
+theorem no_trace_taglink {s : Sys} {e e' : Emit} (h : taglinkGuard s e = some e') (hl : e'.linked = true) :
+    visible s e'.target = true := by
+  unfold taglinkGuard at h
+  split at h
+  · rename_i hv; injection h with h; exact h ▸ hv
+  · split at h
+    · injection h with h; rw [← h] at hl; cases hl
+    · cases h
+
+/-- `CommonPage.children` / `PackagePage.children` + `ChildTable.rows` -/
+theorem no_trace_ChildTable {s : Sys} {p c : Nat} (h : c ∈ tableChildren s p) : visible s c = true := by
+  unfold tableChildren at h
+  split at h
+  · unfold submodules at h
+    have := (List.mem_filter.mp h).2
+    simp only [Bool.and_eq_true] at this
+    exact this.2
+  · exact (List.mem_filter.mp h).2
+
+/-- `PackagePage.packageInitTable` -/
+theorem no_trace_packageInitTable {s : Sys} {p c : Nat} (h : c ∈ initChildren s p) : visible s c = true := by
+  unfold initChildren at h
+  split at h
+  · have := (List.mem_filter.mp h).2
+    simp only [Bool.and_eq_true] at this
+    exact this.2
+  · simp at h
+
+/-- `CommonPage.methods` (member details, anchors) -/
+theorem no_trace_methods {s : Sys} {p c : Nat} (h : c ∈ methods s p) : visible s c = true := (mem_methods.mp h).2.2
+
+/-- `Module.submodules` -/
+theorem no_trace_submodules {s : Sys} {p c : Nat} (h : c ∈ submodules s p) : visible s c = true := by
+  unfold submodules at h
+  have := (List.mem_filter.mp h).2
+  simp only [Bool.and_eq_true] at this
+  exact this.2
+
+/-- `util.unmasked_attrs` -/
+theorem no_trace_unmasked_attrs {s : Sys} {bl : List Nat} {a : Nat} (h : a ∈ unmaskedAttrs s bl) : visible s a = true :=
+  (mem_unmaskedAttrs h).1
+
+/-- `util.class_members` / `ClassPage.baseTables`: every inherited member shown -/
+theorem no_trace_baseTables {s : Sys} {c : Nat} {bl attrs : List Nat} (h : (bl, attrs) ∈ baseLists s c) {a : Nat}
+    (ha : a ∈ attrs) : visible s a = true := by
+  obtain ⟨hattrs, _, _⟩ := mem_classMembers (mem_baseLists h)
+  exact (mem_unmaskedAttrs (hattrs ▸ ha)).1
+
+/-- `util.inherited_members` (sidebar) -/
+theorem no_trace_inherited_members {s : Sys} {c a : Nat} (h : a ∈ inheritedMembers s c) : visible s a = true := by
+  unfold inheritedMembers at h
+  obtain ⟨⟨bl, attrs⟩, hx, ha⟩ := List.mem_flatMap.mp h
+  simp only at ha
+  split at ha
+  · obtain ⟨hattrs, _, _⟩ := mem_classMembers hx
+    exact (mem_unmaskedAttrs (hattrs ▸ ha)).1
+  · simp at ha
+
+/-- `assembleList` ("Known subclasses", "overridden in") -/
+theorem no_trace_assembleList {s : Sys} {l : List Nat} {i : Nat} (h : i ∈ assemble s l) : visible s i = true :=
+  mem_assemble h
+
+/-- `util.overriding_subclasses`: only visible subclasses are yielded -/
+theorem no_trace_overriding_subclasses (s : Sys) : ∀ f c nm x, x ∈ overridingSubs s f true c nm → visible s x = true := by
+  have key : ∀ f first c nm x, x ∈ overridingSubs s f first c nm → (first = false ∧ x = c) ∨ visible s x = true := by
+    intro f
+    induction f with
+    | zero => intro first c nm x h; simp [overridingSubs] at h
+    | succ f ih =>
+      intro first c nm x h
+      rw [overridingSubs] at h
+      split at h
+      · rename_i hc
+        simp only [Bool.and_eq_true, Bool.not_eq_true'] at hc
+        simp only [List.mem_singleton] at h
+        exact .inl ⟨hc.1, h⟩
+      · obtain ⟨sc, _, hx⟩ := List.mem_flatMap.mp h
+        split at hx
+        · rename_i hv
+          rcases ih false sc nm x hx with ⟨_, rfl⟩ | hvx
+          · exact .inr hv
+          · exact .inr hvx
+        · simp at hx
+  intro f c nm x h
+  rcases key f true c nm x h with ⟨hf, _⟩ | hv
+  · cases hf
+  · exact hv
+
+/-- `sidebar.ObjContent`: every item, at every expand depth, direct or inherited -/
+theorem no_trace_sidebar (s : Sys) (pf : File) (k ob : Nat) {e : Emit} (h : e ∈ sideContent s pf k ob) :
+    visible s e.target = true := (mem_sideContent s pf k ob e h).2.2.2.1
+
+/-- `summary.moduleSummary` / `ModuleIndexPage.stuff`: every row of moduleIndex.html -/
+theorem no_trace_moduleIndex {s : Sys} {e : Emit} (h : e ∈ emits s) (hr : e.row = .modIndexRoot ∨ e.row = .modIndex) :
+    visible s e.target = true := no_trace h
+
+/-- `summary.findRootClasses`: every class kept in the dict -/
+theorem no_trace_findRootClasses (s : Sys) {kv : List Char × RootVal} (h : kv ∈ findRootClasses s) {c : Nat}
+    (hc : c ∈ kv.2.classes) : visible s c = true := findRootClasses_visible s kv h c hc
+
+/-- `summary.subclassesFrom` below a visible class -/
+theorem no_trace_subclassesFrom (s : Sys) {f c x : Nat} (hc : visible s c = true) (h : x ∈ subclassesFrom s f c) :
+    visible s x = true := by
+  rcases mem_subclassesFrom s f c x h with rfl | hv
+  · exact hc
+  · exact hv
+
+/-- `ClassIndexPage`: every linked entry of classIndex.html -/
+theorem no_trace_classIndex {s : Sys} {c : Nat} (h : c ∈ classIndexListed s) : visible s c = true := mem_classIndexListed h
+
+/-- `NameIndexPage`, `UndocumentedSummaryPage`, `get_all_documents_flattenable`, `LunrIndexWriter.get_corpus` -/
+theorem no_trace_nameIndex {s : Sys} {o : Nat} (h : o ∈ visibleAll s) : visible s o = true := mem_visibleAll h
+
+theorem no_trace_search {s : Sys} {o : Nat} (h : o ∈ searchDocs s) : visible s o = true := mem_visibleAll h
+
+/-- `SphinxInventoryWriter._generateContent` -/
+theorem no_trace_inventory {s : Sys} (w : WF s) {o : Nat} (h : o ∈ inventory s) : visible s o = true :=
+  ((mem_reached_iff w o).mp h).2
+
+/-- `IndexPage.roots` (since 4b6324b) -/
+theorem no_trace_indexRoots {s : Sys} {e : Emit} (h : e ∈ emits s) (_ : e.row = .indexRoots) : visible s e.target = true :=
+  no_trace h
+
+/-- the private marker, row by row -/
+theorem private_marked_ChildTable {s : Sys} {e : Emit} (h : e ∈ emits s) (hr : e.row = .table)
+    (hp : (s.ob e.target).privacy = .priv) : e.marked = some true := private_marked h (by rw [hr]; rfl) hp
+
+theorem private_marked_packageInitTable {s : Sys} {e : Emit} (h : e ∈ emits s) (hr : e.row = .initTable)
+    (hp : (s.ob e.target).privacy = .priv) : e.marked = some true := private_marked h (by rw [hr]; rfl) hp
+
+theorem private_marked_baseTables {s : Sys} {e : Emit} (h : e ∈ emits s) (hr : e.row = .baseTable)
+    (hp : (s.ob e.target).privacy = .priv) : e.marked = some true := private_marked h (by rw [hr]; rfl) hp
+
+theorem private_marked_childlist {s : Sys} {e : Emit} (h : e ∈ emits s) (hr : e.row = .detail)
+    (hp : (s.ob e.target).privacy = .priv) : e.marked = some true := private_marked h (by rw [hr]; rfl) hp
+
+theorem private_marked_sidebar {s : Sys} {e : Emit} (h : e ∈ emits s) (hr : e.row = .sidebarItem ∨ e.row = .sidebarInherited)
+    (hp : (s.ob e.target).privacy = .priv) : e.marked = some true := by
+  rcases hr with hr | hr <;> exact private_marked h (by rw [hr]; rfl) hp
+
+theorem private_marked_moduleIndex {s : Sys} {e : Emit} (h : e ∈ emits s) (hr : e.row = .modIndexRoot ∨ e.row = .modIndex)
+    (hp : (s.ob e.target).privacy = .priv) : e.marked = some true := by
+  rcases hr with hr | hr <;> exact private_marked h (by rw [hr]; rfl) hp
+
+theorem private_marked_allDocuments {s : Sys} {e : Emit} (h : e ∈ emits s) (hr : e.row = .allDocs)
+    (hp : (s.ob e.target).privacy = .priv) : e.marked = some true := private_marked h (by rw [hr]; rfl) hp
+
+/-- `summary.isPrivate` covers `Documentable.isPrivate`: in nameIndex.html a PRIVATE object's entry is marked
+(and so is every object inside something private) -/
+theorem ctxPrivate_of_private (s : Sys) (i : Nat) (h : isPrivate s i = true) : ctxPrivate s i = true := by
+  unfold ctxPrivate
+  rw [ctxPrivateAux]
+  simp [h]
+
+theorem private_marked_nameIndex {s : Sys} {e : Emit} (h : e ∈ emits s) (hr : e.row = .nameIndex)
+    (hp : (s.ob e.target).privacy = .priv) : e.marked = some true := by
+  have key : ∀ r : Emit, r ∈ requests s → r.row = .nameIndex → r.marked = some (ctxPrivate s r.target) := by
+    intro r hr' hrow
+    have ho := origin hr'
+    simp only [Origin, hrow] at ho
+    exact ho.2.2
+  have hm : e.marked = some (ctxPrivate s e.target) := by
+    rcases mem_emits h with ⟨hr', _⟩ | ⟨_, _, r, hr', _, hrow, ht, hm⟩
+    · exact key e hr' hr
+    · rw [← hm, ← ht]; exact key r hr' (hrow ▸ hr)
+  rw [hm, ctxPrivate_of_private s _ (by simp [isPrivate, hp])]
+
+/-- classIndex.html: the marker of an entry is `isClassNodePrivate` of the class -/
+theorem classIndex_marker {s : Sys} {e : Emit} (h : e ∈ emits s) (hr : e.row = .classIndex) :
+    e.marked = some (classNodePrivate s s.n e.target) := by
+  rcases mem_emits h with ⟨hr', _⟩ | ⟨_, _, r, hr', _, hrow, ht, hm⟩
+  · have ho := origin hr'
+    simp only [Origin, hr] at ho
+    exact ho.2.2
+  · have ho := origin hr'
+    simp only [Origin, hrow ▸ hr] at ho
+    rw [← hm, ← ht]; exact ho.2.2
+
+/-- `summary.isClassNodePrivate`: a class-index node is marked only for a class in a private context all of
+whose subclasses (visible or not) are marked as well -/
+theorem classNodePrivate_sound (s : Sys) : ∀ f c, classNodePrivate s f c = true →
+    ctxPrivate s c = true ∧ ∀ sc, sc ∈ (s.ob c).subclasses → ∃ f', classNodePrivate s f' sc = true := by
+  intro f
+  cases f with
+  | zero => intro c h; simp [classNodePrivate] at h
+  | succ f =>
+    intro c h
+    rw [classNodePrivate] at h
+    simp only [Bool.and_eq_true, List.all_eq_true] at h
+    exact ⟨h.1, fun sc hsc => ⟨f, h.2 sc hsc⟩⟩
 
 /-! ### what is still false of the current code: the unlinked base nodes of classIndex.html -/
 
